@@ -215,6 +215,11 @@ class PseudoOperand(Operand):
     def resolve_symbols(self, symbol_table):
         return self
 
+    def checked(self, value, hex_digits):
+        if len(value.hex()) > hex_digits:
+            raise OperandTypeError("[{}] does not fit in {} bits".format(self.operand_string, hex_digits * 4))
+        return value
+
     def translate(self):
         if self.instruction.mnemonic == "FCB":
             return CodePackage(
@@ -222,7 +227,8 @@ class PseudoOperand(Operand):
                 size=self.value.byte_len(),
                 max_size=self.value.byte_len()
             ) if self.value.is_multi_byte() else CodePackage(
-                additional=NumericValue(-self.value.int if self.value.is_negative() else self.value.int, size_hint=2),
+                additional=self.checked(NumericValue(
+                    -self.value.int if self.value.is_negative() else self.value.int, size_hint=2), 2),
                 size=1,
                 max_size=1
             )
